@@ -23,6 +23,8 @@ from .common import *
 from . import pitmask as pm
 from . import gen_arch as ga
 from . import c01_net as cn
+from . import c01_gen
+from .c01_gen import regenerate      # setup.sh regenerates Gen/ExportGen.v (and Gen/MasksGen.v) through this name
 
 IMPORTS = ['Plinio.Model.Masks', 'Plinio.Model.Conv']
 # minimized earlier failures, always run first (witnesses of the fixed findings; K = 4, 6, 7 = the comb-anchoring defect of C08)
@@ -321,7 +323,9 @@ def key_of(kind, job):
 
 def run(ctx):
     torch = setup_torch()
+    gen_rejected = c01_gen.regenerate(ctx)
     built = ctx.build()
+    ctx.extra['generated_model'] = c01_gen.status(gen_rejected, built)
     ctx.rule = ('pattern nets: one 1-D causal network per binarized time-mask pattern (K, r, v), K <= 9 (quick: all K <= 6 + 30 sampled of K = 7..9; thorough: all x d0 in 1..3); '
                 'grammar nets: gen_arch architectures (1-D/2-D, depthwise, shared-mask residual adds, concat, pooling, flatten, stride 1..2, dilation 1..3) with random channel masks '
                 '(modes mix/min/all/adv) and random time patterns; fold_bn on/off; integer (exact) and real weights; direct PITConv1d layers; torch operators on integer tensors. '
@@ -401,6 +405,8 @@ def run(ctx):
                 d = compare_layer(L, v)
                 if d:
                     mism.append(({'job': o['job'], 'arch': o['arch'], 'layer': nm, 'masks': {k: L.get(k) for k in ('mout', 'min', 'tm', 'beta', 'gamma')}}, d))
+            gvals = ctx.coq_eval_sharded('glayers', c01_gen.IMPORTS, '', [c01_gen.layer_gen_expr(L) for _, _, L in refs], shard=120)
+            mism += c01_gen.differences(refs, vals, gvals)
             xn = [(o, xnet_expr(o)) for o in nets if o.get('xnet')]
             xn = [(o, e) for o, e in xn if e]
             vals = ctx.coq_eval_sharded('xnets', IMPORTS, '', [e for _, e in xn], shard=25)
@@ -427,6 +433,8 @@ def run(ctx):
                     d.append('exported layer of the model %r != alive channels of the implementation forward %r' % (yexp, alive))
                 if d:
                     mism.append(({'layer_job': c['job']}, d))
+            gl = ctx.coq_eval_sharded('glcases', c01_gen.IMPORTS, '', [c01_gen.layer_case_gen_expr(c) for c in lays], shard=100)
+            mism += c01_gen.case_differences(lays, vals, gl)
             vals = ctx.coq_eval_sharded('ops', IMPORTS, '', [c['expr'] for c in ops], shard=150)
             for c, v in zip(ops, vals):
                 ctx.corr += 1
@@ -438,7 +446,9 @@ def run(ctx):
     ctx.extra['model_impl_mismatches'] = len(mism)
 
     if not ctx.violations:   # a printed KNOWN-FINDING must not hide a broken proof / model / correspondence
-        if not built:
+        if c01_gen.report(ctx, gen_rejected, built):
+            pass
+        elif not built:
             ctx.violation('proof-broken', {'theorems': [o[0] for o in ctx.obligations if not o[1]], 'log': getattr(ctx, 'broken_log', '')[-3000:]}, 'Props/C01.v no longer checks', no_input=True)
         elif not model_ok:
             ctx.violation('model-eval-broken', {'notes': ctx.notes}, 'the model could not be evaluated', no_input=True)
